@@ -1595,3 +1595,82 @@ def tokenize (expression : List Char) : Except ParseErr (List Tok) :=
 end Dltype.Gen
 """
     return out
+
+
+# =====================================================================================================================
+# DLTypeDimensionExpression.__init__ (the derived flags and the self-reference test)  ->  Generated/DimFlags.lean
+# =====================================================================================================================
+
+FLAG_LEAVES = {
+    "is_multiaxis_literal": "d.isMultiaxisLiteral",
+    "is_named_multiaxis": "d.isNamedMultiaxis",
+    "is_anonymous": "d.isAnonymous",
+    "all((isinstance(token, int) for token in postfix_expression))": "d.post.all PItem.isInt",
+    "postfix_expression == [identifier]": "(d.post == [PItem.str d.identifier])",
+    "len(postfix_expression) > 1": "decide (d.post.length > 1)",
+    "self.identifier not in postfix_expression": "(!d.post.contains (PItem.str d.identifier))",
+    "self.identifier in postfix_expression": "d.post.contains (PItem.str d.identifier)",
+    "self.identifier in self.parsed_expression": "d.post.contains (PItem.str d.identifier)",
+    "self.identifier not in self.parsed_expression": "(!d.post.contains (PItem.str d.identifier))",
+    "self.is_identifier": "isIdentifier d",
+    "self.is_literal": "isLiteral d",
+    "self.is_expression": "isExpression d",
+}
+
+
+def _flag_expr(e) -> str:
+    if isinstance(e, ast.BoolOp):
+        return "(" + (" && " if isinstance(e.op, ast.And) else " || ").join(_flag_expr(v) for v in e.values) + ")"
+    if isinstance(e, ast.UnaryOp) and isinstance(e.op, ast.Not):
+        return f"(!{_flag_expr(e.operand)})"
+    t = FLAG_LEAVES.get(_src(e))
+    if t is None:
+        raise TErr(f"DLTypeDimensionExpression.__init__: expression `{_src(e)}`")
+    return t
+
+
+def gen_dimflags(lib_dir: str, header: str) -> str:
+    with open(os.path.join(lib_dir, "_parser.py")) as fh:
+        mod = ast.parse(fh.read(), filename="_parser.py")
+    f = _find_method(mod, "DLTypeDimensionExpression", "__init__")
+    if _src(f.args) != "self, identifier: str, postfix_expression: list[str | int | _DLTypeOperator], *, is_multiaxis_literal: bool=False, is_anonymous: bool=False, is_named_multiaxis: bool=False":
+        raise TErr(f"DLTypeDimensionExpression.__init__: parameters `{_src(f.args)}`")
+    body = [s for s in _strip(f.body) if not (isinstance(s, ast.Expr) and isinstance(s.value, ast.Call) and _src(s.value.func).startswith("_logger."))]
+    plain = {"self.identifier": "identifier", "self.parsed_expression": "postfix_expression", "self.is_multiaxis_literal": "is_multiaxis_literal",
+             "self.is_anonymous": "is_anonymous", "self.is_named_multiaxis": "is_named_multiaxis"}
+    flags = {}
+    selfref = None
+    order = []
+    for s in body:
+        if isinstance(s, ast.Assign) and len(s.targets) == 1:
+            t = _src(s.targets[0])
+            if t in plain:
+                if _src(s.value) != plain[t]:
+                    raise TErr(f"DLTypeDimensionExpression.__init__: `{_src(s)}`")
+                order.append(t)
+                continue
+            if t in ("self.is_literal", "self.is_identifier", "self.is_expression"):
+                flags[t] = _flag_expr(s.value)
+                order.append(t)
+                continue
+        if isinstance(s, ast.If) and not s.orelse:
+            inner = [x for x in s.body if not (isinstance(x, ast.Assign) and isinstance(x.value, (ast.Constant, ast.JoinedStr)))]
+            if len(inner) == 1 and isinstance(inner[0], ast.Raise) and _src(inner[0].exc).startswith("SyntaxError") and selfref is None:
+                selfref = _flag_expr(s.test)
+                order.append("raise")
+                continue
+        raise TErr(f"DLTypeDimensionExpression.__init__: statement `{_src(s)[:100]}`")
+    if set(flags) != {"self.is_literal", "self.is_identifier", "self.is_expression"} or selfref is None:
+        raise TErr("DLTypeDimensionExpression.__init__: the three flags and the self-reference test were not all found")
+    # a flag must be assigned before it is read
+    if not (order.index("self.is_literal") < order.index("self.is_expression") and order.index("self.is_identifier") < order.index("self.is_expression")
+            and order.index("self.is_expression") < order.index("raise") and set(plain) <= set(order)):
+        raise TErr("DLTypeDimensionExpression.__init__: order of the assignments")
+    out = header
+    out += "import DltypeModel.Parser\nset_option linter.unusedVariables false\nnamespace Dltype.Gen\nopen Dltype\n\n"
+    out += "/-- `self.is_literal` -/\ndef isLiteral (d : DimExpr) : Bool := " + flags["self.is_literal"] + "\n\n"
+    out += "/-- `self.is_identifier` -/\ndef isIdentifier (d : DimExpr) : Bool := " + flags["self.is_identifier"] + "\n\n"
+    out += "/-- `self.is_expression` -/\ndef isExpression (d : DimExpr) : Bool := " + flags["self.is_expression"] + "\n\n"
+    out += "/-- the condition under which the constructor raises SyntaxError -/\ndef selfRef (d : DimExpr) : Bool := " + selfref + "\n\n"
+    out += "end Dltype.Gen\n"
+    return out
